@@ -176,6 +176,8 @@ def doRx (args : List String) : String :=
               if e.cleaned then (e, none)
               else if t = "L" then go (loopTop e) more
               else if t = "W" then go (onTransmitMark e) more
+              else if t = "Z" then go (localClose e) more
+              else if t = "F" then go (finishEp e) more
               else match fields t with
                 | ["R", hx] =>
                   match unhex hx with
